@@ -639,12 +639,18 @@ func CreateState(filename string, reader *files.Reader, fileOffset int, lineNumb
 }
 
 func (es *SearchEngineState) Copy() *SearchEngineState {
+	// the environment and the per-loop variable maps are Go maps: copy them so that
+	// a checkpoint keeps the bindings it was taken with
+	loopStack := es.loopStack.Copy()
+	for i := 0; i < int(loopStack.Size()); i++ {
+		loopStack.Index(i).variables = loopStack.Index(i).variables.Copy().Hashmap()
+	}
 	return &SearchEngineState{
-		loopStack:         es.loopStack.Copy(),
+		loopStack:         loopStack,
 		backtrack:         es.backtrack.Copy(),
 		variableStack:     es.variableStack.Copy(),
 		callStack:         es.callStack.Copy(),
-		environment:       es.environment,
+		environment:       es.environment.Copy().Hashmap(),
 		status:            es.status,
 		programCounter:    es.programCounter,
 		currentFileOffset: es.currentFileOffset,
